@@ -20,7 +20,12 @@ Inductive case :=
 (* JSON / XML / YAML: producer then consumer on a supported value, compared in Go (differential
    only: the encoders are not modelled). fmt 0 json, 1 xml, 2 yaml; ok = equal and no error and the
    format-specific expectation (UseNumber keeps the digits, no HTML escaping) *)
-| CRoundTrip (fmt : nat) (shape : nat) (panicked : bool) (ok : bool).
+| CRoundTrip (fmt : nat) (shape : nat) (panicked : bool) (ok : bool)
+(* JSON / XML / YAML: a number placed at every number slot of one destination shape (interface
+   slots reached through structs, slices, arrays, maps, pointers, named types; typed integer and
+   float slots), produced, consumed into a fresh destination of the same type; want / got = the
+   leaves of the two values as path = kind : exact decimal text (differential only) *)
+| CNumSlots (fmt : nat) (panicked : bool) (failed : bool) (want got : list bytes).
 
 Definition out_matches (o : outcome) (panicked : bool) (e : option err) : bool :=
   match o with
@@ -47,4 +52,5 @@ Definition check_case (c : case) : N :=
     let ok := negb panicked && negb (is_some e) && Nat.eqb reads 0 && Nat.eqb writes 0 && Nat.eqb closes 0 in
     verdict ok ok
   | CRoundTrip _ _ panicked ok => verdict true (negb panicked && ok)
+  | CNumSlots _ panicked failed want got => verdict true (number_slots_ok panicked failed want got)
   end.
